@@ -431,6 +431,27 @@ def r02_contains(run):
               construct="contains counting", message="_parse_contains does not count +1 exactly on successful conversions")
 
 
+def r02f(run):
+    """every class gets its own validator list: the rebuild in Rule.__init_subclass__ is passed on every normal path.
+    (generate_validators reads the constraints through getattr on the *new* class, i.e. through its whole MRO; a class
+    that skips the rebuild keeps the list found first on the MRO - for two constrained bases that is one base's list)"""
+    f = run.repo.func("utype.parser.rule", "Rule.__init_subclass__")
+    fa = analysis(f)
+    rebuilds = [n for n in fa.cfg.nodes if n.kind == "stmt" and isinstance(n.ast, ast.Assign)
+                and any(isinstance(t, ast.Attribute) and t.attr == "__validators__" for t in n.ast.targets)
+                and any(isinstance(c, ast.Call) and call_attr(c) == "generate_validators" for c in ast.walk(n.ast.value))]
+    run.floor("R02f", "validator rebuilds in Rule.__init_subclass__", len(rebuilds), 1)
+    reach = fa.cfg.reach_from_succ(fa.cfg.entry, kinds=(N,), avoid=rebuilds)
+    ok = fa.cfg.exit not in reach
+    guards = sorted({f"{unparse(b.test)}={b.polarity}" for r in rebuilds for b in fa.facts.branch_facts(r)})
+    run.check("R02f", f, "every new Rule class rebuilds its validators from its own (inherited and declared) constraints", ok,
+              construct="validators not rebuilt for every subclass",
+              message="Rule.__init_subclass__ can finish without `cls.__validators__ = ...generate_validators()`"
+                      + (f" (the rebuild is guarded by {guards})" if guards else ""),
+              necessity="class PositiveEven(Positive, Even): pass keeps Positive's validator list: 3 is accepted although "
+                        "multiple_of=2 is inherited, and isinstance agrees with the wrong verdict")
+
+
 def r02e(run, C):
     """which validator (strict or lax_) runs for a constraint depends on that constraint's own declaration only:
     inside the loops of generate_validators no value is carried over from a previous constraint"""
@@ -479,7 +500,7 @@ def r02e(run, C):
 
 
 def check(run):
-    run.rules_run += ["R02a", "R02b", "R02c", "R02d", "R02e"]
+    run.rules_run += ["R02a", "R02b", "R02c", "R02d", "R02e", "R02f"]
     run.explain("C02: the strict validators are the Constraints methods named in Rule.__constraints__. (R02a) the reject "
                 "condition of each validator, collected from the branch facts of its raise statements and normalised "
                 "(not a<=b == a>b, operands swapped so that the bound is on the right, len(str(value)) == len), equals the "
@@ -496,3 +517,9 @@ def check(run):
     r02c(run)
     r02d(run, C, names)
     r02e(run, C)
+    r02f(run)
+    # shared with C01: every path of Rule.parse to its final return passes the validators (an invalid value is never
+    # accepted only if no path skips them)
+    from . import c01
+    run.rules_run.append("R01c")
+    c01.r01c(run)
